@@ -2,6 +2,7 @@ package main
 
 import (
 	"fmt"
+	"reflect"
 	"math/big"
 	"os"
 	"strings"
@@ -39,6 +40,48 @@ func setHooks(h map[string]hookFn) {
 }
 
 func clearHooks() { setHooks(nil) }
+
+// observe wraps a function of the instrumented tree: cb sees receiver and arguments, then the
+// original body runs (the hook removes itself for the duration of the call).
+func observe(key string, cb func(recv any, args []any)) hookFn {
+	var self hookFn
+	self = func(recv any, args []any) []any {
+		cb(recv, args)
+		f, ok := verifhook.Funcs[key]
+		if !ok {
+			panic("observe: no function " + key)
+		}
+		delete(verifhook.Hooks, key)
+		defer func() { verifhook.Hooks[key] = self }()
+		fv := reflect.ValueOf(f)
+		var in []reflect.Value
+		ft := fv.Type()
+		idx := 0
+		if recv != nil {
+			in = append(in, reflect.ValueOf(recv))
+			idx = 1
+		}
+		for i, a := range args {
+			if a == nil {
+				in = append(in, reflect.Zero(ft.In(idx+i)))
+			} else {
+				in = append(in, reflect.ValueOf(a))
+			}
+		}
+		var outs []reflect.Value
+		if ft.IsVariadic() {
+			outs = fv.CallSlice(in)
+		} else {
+			outs = fv.Call(in)
+		}
+		res := make([]any, len(outs))
+		for i, o := range outs {
+			res[i] = o.Interface()
+		}
+		return res
+	}
+	return self
+}
 
 // fn fetches an exported-by-instrumentation function.
 func fn[T any](key string) T {
